@@ -75,7 +75,18 @@ def install():
                         % (name, n, self.max_iter))
             raise MonitorAbort("%s exceeded max_iter=%s by %d updates" % (
                 name, self.max_iter, n - self.max_iter))
-        orig_update(self)
+        try:
+            orig_update(self)
+        except MonitorAbort:
+            raise
+        except BaseException:
+            # an update that raised performed no update: the counter must not have moved
+            cnt["Alg.update:raised"] += 1
+            if self.iter != before:
+                STATE.event("C15", "counter:" + name,
+                            "%s.update() raised but moved iter from %r to %r" % (
+                                name, before, self.iter))
+            raise
         after = self.iter
         if after != before + 1:
             STATE.event("C15", "counter:" + name,
